@@ -35,3 +35,41 @@ theorem fromBE_lt (bs : Bytes) : fromBE bs < 256 ^ bs.length := by
     omega
 
 end Kmip
+
+namespace Kmip
+
+theorem be_fromBE (bs : Bytes) : be bs.length (fromBE bs) = bs := by
+  induction bs with
+  | nil => simp [be]
+  | cons b rest ih =>
+    have hlt := fromBE_lt rest
+    have hp : 0 < 256 ^ rest.length := Nat.pow_pos (by omega)
+    simp only [List.length_cons, be, fromBE]
+    have h1 : (b.toNat * 256 ^ rest.length + fromBE rest) / 256 ^ rest.length = b.toNat := by
+      rw [Nat.add_comm, Nat.add_mul_div_right _ _ hp, Nat.div_eq_of_lt hlt, Nat.zero_add]
+    have hb : b.toNat < 256 := by have := b.toNat_lt; simpa using this
+    rw [h1, Nat.mod_eq_of_lt hb]
+    congr 1
+    · cases b; simp [UInt8.ofNat, UInt8.toNat]
+    · have : be rest.length (b.toNat * 256 ^ rest.length + fromBE rest) = be rest.length (fromBE rest) := by
+        have hmod : ∀ k n m, be k (m * 256 ^ k + n) = be k n := by
+          intro k
+          induction k with
+          | zero => intro n m; simp [be]
+          | succ k ihk =>
+            intro n m
+            simp only [be]
+            congr 1
+            · congr 1
+              have hk : 0 < 256 ^ k := Nat.pow_pos (by omega)
+              have e1 : m * 256 ^ (k + 1) + n = n + (m * 256) * 256 ^ k := by
+                rw [Nat.pow_succ, Nat.mul_assoc, Nat.mul_comm (256 ^ k) 256, Nat.add_comm]
+              have : (m * 256 ^ (k + 1) + n) / 256 ^ k = n / 256 ^ k + m * 256 := by
+                rw [e1, Nat.add_mul_div_right _ _ hk]
+              rw [this, Nat.add_mul_mod_self_right]
+            · have : m * 256 ^ (k + 1) + n = (m * 256) * 256 ^ k + n := by rw [Nat.pow_succ]; rw [Nat.mul_assoc, Nat.mul_comm (256 ^ k) 256]
+              rw [this]; exact ihk n (m * 256)
+        exact hmod _ _ _
+      rw [this]; exact ih
+
+end Kmip
